@@ -360,7 +360,16 @@ func genCfg(G *simrt.Tape, U []*Key, prev *mCfg, maxSvc int) *mCfg {
 			nK = 13 + G.Draw(12) // a long key list: the universe is small, so it repeats keys
 		}
 		for k := 0; k < nK; k++ {
-			sv.Keys = append(sv.Keys, U[G.Draw(len(U))])
+			cand := U[G.Draw(len(U))]
+			clash := false
+			for _, x := range sv.Keys {
+				if x.ID == cand.ID && !sameCrypto(x, cand) {
+					clash = true // one id, two key materials in one service: not a shape the statement covers
+				}
+			}
+			if !clash {
+				sv.Keys = append(sv.Keys, cand)
+			}
 		}
 		c.Services = append(c.Services, sv)
 	}
@@ -369,7 +378,16 @@ func genCfg(G *simrt.Tape, U []*Key, prev *mCfg, maxSvc int) *mCfg {
 		ports := []int{9100, 9101}
 		for i := 0; i < nLeg; i++ {
 			p := ports[G.Draw(2)]
-			c.Legacy = append(c.Legacy, mLegacy{p, U[G.Draw(len(U))]})
+			cand := U[G.Draw(len(U))]
+			clash := false
+			for _, x := range c.Legacy {
+				if x.Port == p && x.Key.ID == cand.ID && !sameCrypto(x.Key, cand) {
+					clash = true
+				}
+			}
+			if !clash {
+				c.Legacy = append(c.Legacy, mLegacy{p, cand})
+			}
 		}
 	}
 	return c
